@@ -7,7 +7,7 @@ EXPLANATION = ('Whole-server level: one request whose method, EIO value, transpo
                'headers, JSONP index and the configured transports are chosen by symbolic selectors is issued against a '
                'server holding the named session (built through the public API) and a bystander session. Refusal is '
                'checked against a reference admission table; "no effect at all" is checked differentially: the same '
-               'follow-up probes are run with and without the refused request and must observe the same thing.')
+               'follow-up probes are run with and without the refused request and must observe the same thing. The no-effect differential is also applied to any request the server CHOOSES to answer with a refusal although the table does not require it.')
 STUBS = SIM_STUBS
 OUTSIDE = SIM_OUTSIDE + ['header / query values outside the tables', 'requests issued at points of a session life other '
                          'than the seven session kinds']
